@@ -162,6 +162,23 @@ Section Cov.
   Qed.
 End Cov.
 
+(* with the forbidden positions free of table references, nothing at all is excepted *)
+Lemma coverage_sound_total S : check_coverage S = true ->
+  forall n ti, conforms S n = true -> find_ty S (n_ty n) = Some ti -> t_stmt ti = true ->
+  forbidden_clean S n = true ->
+  forall t, In t (refs_below_all S n) -> t <> 0 -> exists u, In (u, t) (tables_reported S n).
+Proof.
+  intros Hc n ti Hcf Ft Hs Hclean t Ht Hz.
+  apply (coverage_sound S Hc n ti Hcf Ft Hs t); [|assumption].
+  unfold refs_below_all in Ht. apply in_flat_map in Ht as (p & Hp & Ht).
+  unfold refs_below. apply in_flat_map. exists p. split; [assumption|].
+  destruct (memNN (n_ty n, fst p) (s_exempt S)) eqn:Ex; [|assumption].
+  exfalso. unfold forbidden_clean in Hclean.
+  assert (Hin : In t (refs_forbidden S n)).
+  { unfold refs_forbidden. apply in_flat_map. exists p. split; [assumption|]. rewrite Ex. assumption. }
+  destruct (refs_forbidden S n); [destruct Hin|discriminate].
+Qed.
+
 (* the target of an INSERT / UPDATE / DELETE is reported as a write *)
 Lemma write_target_reported S n c f k :
   find_case S (n_ty n) = Some c -> In f (c_write c) -> In k (kids n f) -> n_tag k <> 0 ->
@@ -218,6 +235,36 @@ Lemma executes_checks_all chk kind us : authorize chk kind us = true ->
 Proof.
   induction us as [|[u t] r IH]; cbn [authorize checks_made map fst snd]; intros H; [reflexivity|].
   destruct (chk (perm_for kind u) t); [|discriminate]. rewrite (IH H). reflexivity.
+Qed.
+
+(* ---------------------------------------------------------------- composition *)
+Definition every_table_checked_stmt (S : schema) : Prop :=
+  forall chk n ti, conforms S n = true -> find_ty S (n_ty n) = Some ti -> t_stmt ti = true ->
+    executes S chk n = true ->
+    (forall t, In t (refs_below S n) -> t <> 0 -> exists u, chk (perm_for (kind_of S n) u) t = true)
+    /\ (forall c f k, find_case S (n_ty n) = Some c -> In f (c_write c) -> In k (kids n f) -> n_tag k <> 0 ->
+          chk (write_perm (kind_of S n)) (n_tag k) = true)
+    /\ (is_ddl_kind (kind_of S n) = true -> target_present S n = true -> exists t, chk PDsnAdmin t = true).
+
+Lemma every_table_checked : forall S, check_coverage S && check_ddl S = true -> every_table_checked_stmt S.
+Proof.
+  intros S H. apply andb_true_iff in H as [Hc Hd]. intros chk n ti Hcf Ft Hs Hex.
+  unfold executes in Hex. pose proof (authorize_all _ _ _ Hex) as Hall. repeat split.
+  - intros t Ht Hz. destruct (coverage_sound S Hc n ti Hcf Ft Hs t Ht Hz) as (u & Hu).
+    exists u. apply (Hall u t Hu).
+  - intros c f k Fc Hf Hk Hz. apply (Hall UWrite (n_tag k)). eapply write_target_reported; eauto.
+  - intros Hk Htp. unfold kind_of in Hk. destruct (find_case S (n_ty n)) as [c|] eqn:Fc; [|discriminate].
+    destruct (ddl_requires_admin S Hd n c Fc Hk Htp) as (t & Ht). exists t. apply (Hall UAdmin t Ht).
+Qed.
+
+Lemma every_table_checked_total : forall S, check_coverage S && check_ddl S = true ->
+  forall chk n ti, conforms S n = true -> find_ty S (n_ty n) = Some ti -> t_stmt ti = true ->
+    forbidden_clean S n = true -> executes S chk n = true ->
+    forall t, In t (refs_below_all S n) -> t <> 0 -> exists u, chk (perm_for (kind_of S n) u) t = true.
+Proof.
+  intros S H chk n ti Hcf Ft Hs Hcl Hex t Ht Hz. apply andb_true_iff in H as [Hc _].
+  destruct (coverage_sound_total S Hc n ti Hcf Ft Hs Hcl t Ht Hz) as (u & Hu).
+  exists u. exact (authorize_all _ _ _ Hex u t Hu).
 Qed.
 
 (* ---------------------------------------------------------------- the pinned tree, in miniature *)
